@@ -82,3 +82,41 @@ Definition bool_subview (c : chunk) (i : N) : option bool :=
   if 32 <=? i then None else
   let x := N_of_byte (nth (nat_of i) c b0) in
   if 1 <? x then None else Some (x =? 1).
+
+(* ---- EncodingWriter.Write over a writer that makes SHORT writes: at most [chunk] >= 1 bytes per
+   call with a nil error (io.Writer forbids it, but Write's loop  for n < len(p) { d, err :=
+   w.Write(p[n:]); ew.n += d; if err != nil { return err }; n += d }  is there to tolerate it),
+   and that fails once its budget is used up, accepting the part that still fits.
+   [cw_n] is the EncodingWriter's own counter, [cw_accepted] what the underlying writer took.
+   The loop is modelled with fuel (length p + 1 calls always suffice when chunk >= 1; running
+   out of fuel, which only chunk = 0 can do, is reported as a failure). ---- *)
+Record cwstate := mkCW { cw_budget : option N; cw_chunk : N; cw_accepted : list byte; cw_n : N }.
+
+(* one call of the underlying writer on slice p: (bytes taken, error?) *)
+Definition cw_call (w : cwstate) (p : list byte) : N * bool (* ok *) :=
+  let m := N.min (lenN p) (cw_chunk w) in
+  match cw_budget w with
+  | None => (m, true)
+  | Some b => if b <? m then (b, false) else (m, true)
+  end.
+
+Fixpoint cw_write_loop (fuel : nat) (w : cwstate) (p : list byte) : cwstate * bool :=
+  match p with
+  | [] => (w, true)
+  | _ =>
+    match fuel with
+    | O => (w, false)
+    | S f =>
+      let '(d, ok) := cw_call w p in
+      let w' := mkCW (match cw_budget w with None => None | Some b => Some (b - d) end) (cw_chunk w)
+                     (cw_accepted w ++ firstn (nat_of d) p) (cw_n w + d) in
+      if ok then cw_write_loop f w' (skipn (nat_of d) p) else (w', false)
+    end
+  end.
+Definition cw_write (w : cwstate) (p : list byte) : cwstate * bool :=
+  cw_write_loop (S (length p)) w p.
+Fixpoint cw_write_all (w : cwstate) (chunks : list (list byte)) : cwstate * bool :=
+  match chunks with
+  | [] => (w, true)
+  | p :: r => let '(w', ok) := cw_write w p in if ok then cw_write_all w' r else (w', false)
+  end.
